@@ -342,11 +342,21 @@ def cipherKeyLenOk (sym keyLen : Nat) : Bool :=
   else if sym == Gen.symIdTwofish then keyLen == 16 || keyLen == 24 || keyLen == 32
   else keyLen == symKeySize sym
 
-/-- `StreamDecryptor::new(alg, ..)` of `crypto/sym/decryptor.rs`: Plaintext and unknown ciphers are
+/-- `StreamDecryptor::new(alg, ..)` as it was before repair D18d: Plaintext and unknown ciphers are
 refused, then `BufDecryptor::<C>::new_from_slices(key, iv)` (`Err(InvalidLength)` for a key length the
-cipher does not take).  No slicing happens on the key. -/
-def cfbNew (sym keyLen : Nat) : Out Unit :=
+cipher does not take) — Blowfish and CAST5 take lengths that are not the session-key size. -/
+def cfbNewPreFix (sym keyLen : Nat) : Out Unit :=
   if symKeySize sym = 0 then err else ensure (cipherKeyLenOk sym keyLen)
+
+/-- repaired: `ensure_eq!(key.len(), alg.key_size())` comes first; the cipher's own check follows -/
+def cfbNewFixed (sym keyLen : Nat) : Out Unit :=
+  if keyLen != symKeySize sym then err
+  else cfbNewPreFix sym keyLen
+
+/-- `StreamDecryptor::new(alg, ..)` of `crypto/sym/decryptor.rs`, as the tree has it (the translator
+reports whether the length comparison is there).  No slicing happens on the key. -/
+def cfbNew (sym keyLen : Nat) : Out Unit :=
+  if Gen.fixD18dCfbSessionKeyLenChecked = 1 then cfbNewFixed sym keyLen else cfbNewPreFix sym keyLen
 
 /-- SED (tag 9): needs `enable_legacy()`, only v3/v4 session keys -/
 def sedAdmit (legacy : Bool) (sk : SkKind) (keyLen : Nat) : Out Unit :=
